@@ -453,6 +453,7 @@ class TDMProgram(Program):
         if self.unrolled_circuit is not None:
             if self._unrolled_shots == shots:
                 self.circuit = self.unrolled_circuit
+                self.locked = _locked
                 return
             self.roll()
 
@@ -484,6 +485,7 @@ class TDMProgram(Program):
 
         if self.space_unrolled_circuit is not None and self._unrolled_shots == shots:
             self.circuit = self.space_unrolled_circuit
+            self.locked = _locked
             return
         self.roll()
 
